@@ -60,16 +60,18 @@ harmless; for a later one (`reopen`) the retry with `w+b` *truncates* the archiv
 written so far are gone, the save carries on and reports success.  (`create` is also what
 openpyxl's `ZipFile(path, "w")` of a workbook among the IO data files is, in either format.)
 
-`guarded` / `guardedClose`: operations under a handler that absorbs a `PermissionError` and tries
-again.  `ziputil.copy_file` (file → archive: how `archive_dir` adds the IO data files written
-to the work directory to the temporary archive) runs `with ZipFile(root, "a") as z: z.write(src,
-member)` up to three times (GH82); `TemporaryDirectory.cleanup` re-tries an `unlink`/`rmdir`
-after resetting permissions.  A transient `PermissionError` of `z.write` (`guarded`) is
-harmless: the `with` closes the archive properly and the next attempt adds the member.  A
-transient `PermissionError` of the *close* (`guardedClose`) leaves the archive without central
-directory; the next attempt's `ZipFile(root, "a")` then takes it for "not a zip file, just
-append" and starts a new archive behind the old bytes: every member written so far is gone,
-the save carries on and reports success. -/
+`guarded`: an operation under a handler that absorbs a `PermissionError` and tries again:
+`TemporaryDirectory.cleanup` re-tries an `unlink`/`rmdir` after resetting permissions.
+
+`ziputil.copy_file` (file → archive: how `archive_dir` adds the IO data files written to the
+work directory to the temporary archive) has the GH82 loop that tries again on
+`PermissionError`.  Since 14fa119 only the *opening* `ZipFile(root, "a")` is inside it (a
+`reopen`); `z.write(src, member)` and the close are `plain`: their error ends the save.
+`guardedClose` is the close of the archive as it was *before* 14fa119, inside the loop: a
+transient `PermissionError` of it left the archive without central directory, the next attempt's
+`ZipFile(root, "a")` took it for "not a zip file, just append" and started a new archive behind
+the old bytes – every member written so far gone, success reported.  It has a meaning only
+under `faultKindOld`; `faultKind` treats it like `plain`. -/
 inductive TmpKind | plain | create | reopen | guarded | guardedClose
 deriving DecidableEq, Repr
 
@@ -239,22 +241,37 @@ deriving DecidableEq, Repr
 /-- who absorbs what.  `ZipFile.__init__` retries the `open` with the next file mode on any
 `OSError` (a `PermissionError` is one): two more modes at most, so an error that persists comes
 out.  `copy_file`'s loop and `TemporaryDirectory`'s handler absorb a `PermissionError` only,
-and give up (re-raise) when it persists.  `shutil.move` falls back to `copy2` + `unlink` when its
+and give up (re-raise) when it persists (`copy_file`'s loop contains the opening only, which is
+`zipfile`'s business first – a `reopen`).  `shutil.move` falls back to `copy2` + `unlink` when its
 `os.rename` fails – other operations, so even a persistent error of the rename is absorbed. -/
 def faultKind (pol : Policy) (pl : List Prim) (k : Nat) : FaultKind :=
   match pl[k]? with
   | some (.tmp .create) => if pol.persist then .raises else .retried
   | some (.tmp .reopen) => if pol.persist then .raises else .truncates
   | some (.tmp .guarded) => if pol.exc = .perm ∧ pol.persist = false then .retried else .raises
-  | some (.tmp .guardedClose) =>
-    if pol.exc = .perm ∧ pol.persist = false then .truncates else .raises
   | some (.move _) => .retried
   | _ => .raises
+
+/-- the rule of the code before 14fa119: the whole `with ZipFile(root, "a") as z: z.write(…)` was
+inside `copy_file`'s retry loop, so a transient `PermissionError` of the close (`guardedClose`)
+was absorbed and the next attempt re-created the archive without its members -/
+def faultKindOld (pol : Policy) (pl : List Prim) (k : Nat) : FaultKind :=
+  match pl[k]? with
+  | some (.tmp .guardedClose) =>
+    if pol.exc = .perm ∧ pol.persist = false then .truncates else .raises
+  | _ => faultKind pol pl k
 
 /-- a save during which primitive `k` fails the way `sv.pol` says (no failure at all when `k ≥`
 the plan's length) -/
 def save (maxB : Nat) (sv : Save) (k : Nat) (fs : FS) : FS × Bool :=
   match faultKind sv.pol (plan maxB sv fs) k with
+  | .raises => run (plan maxB sv fs) k fs
+  | .retried => run (plan maxB sv fs) (plan maxB sv fs).length fs
+  | .truncates => run (planBroken maxB sv fs) (planBroken maxB sv fs).length fs
+
+/-- the same save under the rule of the code before 14fa119 -/
+def saveOld (maxB : Nat) (sv : Save) (k : Nat) (fs : FS) : FS × Bool :=
+  match faultKindOld sv.pol (plan maxB sv fs) k with
   | .raises => run (plan maxB sv fs) k fs
   | .retried => run (plan maxB sv fs) (plan maxB sv fs).length fs
   | .truncates => run (planBroken maxB sv fs) (planBroken maxB sv fs).length fs
